@@ -50,6 +50,12 @@ def variants(fn: ast.FunctionDef, tier: str):
         if tier == "thorough":
             vs.append(("periods=small-odd", {k: (5 if v >= 5 else v) for k, v in ip if v >= 2}))
             vs.append(("periods+3", {k: v + 3 for k, v in ip if v >= 2}))
+    # one parameter small while the others keep their defaults (relations between parameters: a look-back that is shorter than
+    # another one can index before the start of the series and wrap around to its end)
+    if len(ip) >= 2:
+        for k, v in ip:
+            if v > 2:
+                vs.append((f"{k}=2", {k: 2}))
     # selectable moving average: also a recursive one (1 = ema), whose value depends on the whole (sliced) history
     mt = ma_params(fn)
     if mt:
